@@ -4,6 +4,7 @@
 From Coq Require Import List ZArith Bool Arith.
 Import ListNotations.
 From RV Require Import Gen.GenTermination Model.Retry Model.Machine Proofs.MachineP.
+From RV Require Import Lib.Str Model.Format Gen.GenUi Gen.GenMain Proofs.FormatP.
 
 (** Containment: take two worlds that agree on run r (its description, what its processes do, the
     builds it needs) and differ arbitrarily in every other run - other runs may succeed, fail from
@@ -45,6 +46,60 @@ Theorem C10_failed_build_contained :
     forall inv, ~ In (r, GStart inv) (g_trace (session w ps (ginit loaded))).
 Proof. exact failed_build_no_start. Qed.
 Print Assumptions C10_failed_build_contained.
+
+(** The process exit status (main_func is read off rebench/rebench.py on every run, Gen/GenMain.v):
+    0 when the session result is true, 1 when it is false, 2 on a user abort, 3 on a usage or
+    configuration error. *)
+Theorem C10_exit_codes :
+  exit_status RTrue = Some 0%Z /\ exit_status RFalse = Some 1%Z
+  /\ exit_status RKeyboardInterrupt = Some 2%Z /\ exit_status RUIError = Some 3%Z.
+Proof. repeat split; reflexivity. Qed.
+Print Assumptions C10_exit_codes.
+
+(** ... so a session exits with 0 exactly if every run has its configured invocations recorded, or -f,
+    and with 1 otherwise. *)
+Theorem C10_exit_status_of_session :
+  forall w g,
+    let st := exit_status (if exit_ok w g then RTrue else RFalse) in
+    (st = Some 0%Z <->
+       (forall r, (r < w_n w)%nat -> (r_invocations (d_cfg (w_desc w r)) <= s_completed (l_st (g_loc g r)))%Z)
+       \/ w_faulty w = true)
+    /\ (st = Some 0%Z \/ st = Some 1%Z).
+Proof.
+  intros w g st. unfold st. pose proof (exit_spec w g) as E. pose proof C10_exit_codes as [H0 [H1 _]].
+  destruct (exit_ok w g); rewrite ?H0, ?H1; split.
+  - split; [intros _; apply E; reflexivity | reflexivity].
+  - left. reflexivity.
+  - split; [discriminate | intros H; apply E in H; discriminate].
+  - right. reflexivity.
+Qed.
+Print Assumptions C10_exit_status_of_session.
+
+(** No message can break the output: every message the UI prints is a str.format template rendered with
+    the keyword `ind`.  For EVERY text - command, name, directory, environment value, program output,
+    YAML error, file name - escape_braces (read off ui.py) makes it literal: it is printed verbatim. *)
+Theorem C10_escaped_text_is_literal :
+  forall ind s, py_format ind (escape_braces s) = FOk s.
+Proof. exact format_escape. Qed.
+Print Assumptions C10_escaped_text_is_literal.
+
+(** A message assembled from well-formed template text, the indent placeholder and escaped text
+    renders without an error, and shows each text unchanged; the run details header of ui.py is
+    assembled that way (details_escaped), output goes through that rendering (output_passes_ind),
+    configuration errors are turned into UIError with an escaped message and printed through it. *)
+Theorem C10_messages_never_fail :
+  (forall ind ps,
+     (forall t, In (PLit t) ps -> exists r, py_format ind t = FOk r) ->
+     py_format ind (concat (map piece_tmpl ps)) = FOk (concat (map (piece_text ind) ps)))
+  /\ details_escaped = true /\ output_passes_ind = true
+  /\ config_errors_are_ui_errors = true /\ ui_error_printed_through_format = true
+  /\ (forall ind m, py_format ind ([10%N] ++ escape_braces m ++ [10%N]) = FOk ([10%N] ++ m ++ [10%N])).
+Proof.
+  split; [exact message_renders|]. repeat split; try reflexivity.
+  intros ind m. apply (format_app ind [10%N] (escape_braces m ++ [10%N]) [10%N] (m ++ [10%N])); [reflexivity|].
+  apply format_app; [apply format_escape | reflexivity].
+Qed.
+Print Assumptions C10_messages_never_fail.
 
 (** Non-vacuity: run 0 always fails, run 1 succeeds; and the same run 1 next to a succeeding run 0. *)
 Definition w_fail : world :=
